@@ -48,13 +48,16 @@ type registration struct {
 	created        string   // when registration was created
 	match          string   // how procedure uri is matched to registration
 	policy         string   // how callee is selected if shared registration
-	disclose       bool     // callee requests disclosure of caller identity
 	forwardTimeout bool     // callee requests to handle the timeout logic
 	nextCallee     int      // choose callee for round-robin invocation.
 
 	// Multiple sessions can register as callees depending on invocation policy
 	// resulting in multiple procedures for the same registration ID.
 	callees []*wamp.Session
+
+	// Callees that requested disclosure of caller identity and were allowed
+	// to. Each callee of a shared registration gets what it asked for itself.
+	disclose map[*wamp.Session]struct{}
 }
 
 // invocation tracks in-progress invocation.
@@ -462,7 +465,6 @@ func (d *dealer) syncRegister(callee *wamp.Session, msg *wamp.Register, match, i
 			created:        created,
 			match:          match,
 			policy:         invokePolicy,
-			disclose:       disclose,
 			forwardTimeout: forwardTimeout,
 			callees:        []*wamp.Session{callee},
 		}
@@ -548,6 +550,13 @@ func (d *dealer) syncRegister(callee *wamp.Session, msg *wamp.Register, match, i
 
 		// Add callee for the registration.
 		reg.callees = append(reg.callees, callee)
+	}
+
+	if disclose {
+		if reg.disclose == nil {
+			reg.disclose = map[*wamp.Session]struct{}{}
+		}
+		reg.disclose[callee] = struct{}{}
 	}
 
 	// Add the registration ID to the callees set of registrations.
@@ -814,9 +823,9 @@ func (d *dealer) syncCall(caller *wamp.Session, msg *wamp.Call) {
 			pptOptionsToDetails(invk.options, details)
 		}
 
-		// If the callee has requested disclosure of caller identity when the
-		// registration was created, and this was allowed by the dealer.
-		if reg.disclose {
+		// If the callee has requested disclosure of caller identity when it
+		// registered, and this was allowed by the dealer.
+		if _, discl := reg.disclose[callee]; discl {
 			if callee.ID == metaID {
 				details[wamp.RoleCaller] = caller.ID
 			}
@@ -1395,6 +1404,7 @@ func (d *dealer) syncDelCalleeReg(callee *wamp.Session, regID wamp.ID) (bool, er
 				// Delete preserving order.
 				reg.callees = append(reg.callees[:i], reg.callees[i+1:]...)
 			}
+			delete(reg.disclose, callee)
 			found = true
 			break
 		}
